@@ -130,8 +130,7 @@ func (m *pathParamMatcher) Matches(request *heimdall.Request, keys, values []str
 		case config.EncodedSlashesOn:
 			value, _ = url.PathUnescape(value)
 		default:
-			unescaped, _ := url.PathUnescape(encodedSlashProtector.Replace(value))
-			value = strings.ReplaceAll(unescaped, "$$$escaped-slash$$$", "%2F")
+			value = unescapeExceptSlashes(value)
 		}
 	}
 
